@@ -25,7 +25,7 @@ pub fn check() -> Check {
     Check {
         property: "C16",
         level: "exploration",
-        rule: "texts from a grammar over {'-', SP, TAB, CR, LF, letters, 'é', the armor boundary strings, \"- \", \"Hash: x\", \"From \"} with 0..8 lines, with and without final newline, signed through CleartextSignedMessage::sign / new / new_many (1-2 signers, SHA-256/384/512), written with to_armored_string, sent through a mail-path channel that rewrites body lines (identity, LF->CRLF, CRLF->LF, trailing blanks stripped, trailing blanks added, one bit flipped, one byte inserted or deleted), and read back with from_string / from_armor(SimReader) / from_armor_buf(SimBufRead) under read schedules. One symmetric oracle for every channel: with r = reference signed form of the original text and r' = reference signed form of the body as it leaves the channel, verify succeeds iff r' == r and, whenever parsing succeeds, signed_text() == r'; on the identity channel text() round-trips. Non-trivial: the text contains a dash-initial line, a blank-terminated line, a CR or an armor boundary string; distinct = (text, channel, reader) hash.",
+        rule: "texts from a grammar over {'-', SP, TAB, CR, LF, letters, 'é', the armor boundary strings, \"- \", \"Hash: x\", \"From \"} with 0..8 lines, with and without final newline, signed through CleartextSignedMessage::sign / new / new_many (1-2 signers, SHA-256/384/512), written with to_armored_string (and with to_armored_writer into sinks that take 1..64 octets per call: same document), sent through a mail-path channel that rewrites body lines (identity, LF->CRLF, CRLF->LF, trailing blanks stripped, trailing blanks added, one bit flipped, one byte inserted or deleted), and read back with from_string / from_armor(SimReader) / from_armor_buf(SimBufRead) under read schedules. One symmetric oracle for every channel: with r = reference signed form of the original text and r' = reference signed form of the body as it leaves the channel, verify succeeds iff r' == r and, whenever parsing succeeds, signed_text() == r'; on the identity channel text() round-trips. Non-trivial: the text contains a dash-initial line, a blank-terminated line, a CR or an armor boundary string; distinct = (text, channel, reader) hash.",
         families: vec![Family { name: "mailpath", gen: gen_mail, run: run_mail }],
         assumptions: vec![
             "the channel touches body lines only, never the armor header, the Hash headers or the signature block",
@@ -237,6 +237,39 @@ fn run_mail(plan: &Value, rec: &mut Rec) {
         }
         Ok(Ok(d)) => d,
     };
+    // the same document written into a sink that takes only a few octets per call (pipe, socket): identical
+    {
+        let pick = ju64(plan, "pick");
+        let sched = match pick % 4 {
+            0 => crate::seams::Sched::Fixed(1),
+            1 => crate::seams::Sched::Fixed(3 + (pick / 4 % 60) as usize),
+            2 => crate::seams::Sched::List(vec![1 + (pick / 4 % 7) as usize, 64, 2, 4096]),
+            _ => crate::seams::Sched::Full,
+        };
+        let (mut w, out, _log) = crate::seams::SimWriter::new(sched.clone(), vec![], 1 << 22);
+        match guard(|| msg.to_armored_writer(&mut w, ArmorOptions::default()).map_err(|e| e.to_string())) {
+            Err(p) => {
+                rec.violation("panic", &norm_loc(&p.loc), format!("to_armored_writer panicked under short writes: {}", p.msg), plan.clone());
+                return;
+            }
+            Ok(Err(e)) => {
+                rec.violation("write-failed", &site0, format!("to_armored_writer fails into a sink with schedule {:?}: {e}", sched.to_json()), plan.clone());
+                return;
+            }
+            Ok(Ok(())) => {
+                let written = out.lock().unwrap().clone();
+                if written != doc.as_bytes() {
+                    rec.violation(
+                        "writer-wrong",
+                        &site0,
+                        format!("to_armored_writer into a sink that accepts the schedule {:?} emits {} octets, to_armored_string {} (the document depends on how the sink takes it)", sched.to_json(), written.len(), doc.len()),
+                        plan.clone(),
+                    );
+                    return;
+                }
+            }
+        }
+    }
     let Some((sep, end)) = split_doc(&doc) else {
         rec.violation("writer-illegal", &site0, "emitted document has no header/body/signature structure".into(), plan.clone());
         return;
